@@ -2213,6 +2213,11 @@ impl SubRule {
             while *state_index < states.len() {
                 #[cfg(asca_verif)] crate::verif::tick(26);
                 // NOTE: input_match_item advances state_index itself on a match
+                // what follows the ellipsis may run past the end of the word, where only a boundary can match
+                if !word.in_bounds(*pos) && states[*state_index].kind != ParseElement::SyllBound {
+                    m = false;
+                    break;
+                }
                 if !self.input_match_item(captures, pos, state_index, word, states)? {
                     m = false;
                     break;
